@@ -59,11 +59,74 @@ Statements         docstring; `v = e`; `a, b = e1, e2` (names only); `v op= e` (
                    builds are refused);
                    nested `def` / `v = lambda …` -> inlined at the calls (a captured variable must not be re-assigned
                    after the definition unless the call reads the new value, which the live environment gives).
-REFUSED, e.g.      while, try, with, classes, decorators, global/nonlocal, *args/**kwargs, keyword arguments, attribute access
-                   other than `math.<name>`, string / bytes / None / complex values, `is`, `in`, chained comparisons,
-                   comprehension `if`s and nested `for`s, slices with a step, any call not listed, recursion.
+REFUSED, e.g.      try, with, global/nonlocal, *args/**kwargs, keyword arguments, attribute access other than `math.<name>`
+                   (and `self.<declared field>` in a rendered method), string / bytes / None / complex values, `is`, `in`,
+                   chained comparisons, comprehension `if`s and nested `for`s, slices with a step, any call not listed,
+                   recursion, classes / decorators / `while` outside the shapes of ROUND 8 below.
+
+RANDOMNESS         `random.random()` (the module `random`, `import random`) in STRAIGHT-LINE code of a function: the next draw
+                   of an explicit TAPE (`Gen.popRandom`, exhausted = none), the way Core/Bench.lean `rand` consumes its
+                   tape: the generated function takes the tape as its LAST argument and returns `(value, rest of the tape)`.
+                   Inside loops / comprehensions / conditional expressions / inlined functions, and every other random.*
+                   function: refused.
+
+ROUND 8 (extensions; every rule above is unchanged, each of these renders something that was refused before)
+  range(a, b, k)   literal k >= 2 -> `Gen.rangeStep a b k` (CPython's length (b - a + k - 1) // k, 0 when b <= a).
+  and / or         with an operand that can raise: Python's short-circuit order made explicit.  The first operand is
+                   evaluated in the enclosing scope; the others inside `if c1 then (… some (decide c2)) else some false`
+                   (`or`: `if c1 then some true else …`), bound as a Bool `c`, the condition is `c = true`.
+  int ** int       exponent an int EXPRESSION -> `Gen.ipowInt a e` (bound).  e < 0 (a float in Python) is OUTSIDE the
+                   rendering and given as `none`; the theorems are stated for natural exponents.
+  int(e)           of an int-typed e -> e.     list * int / int * list -> `Gen.listMul` (n <= 0: empty).
+  int("".join(map(str, seq)), 2)   exactly this shape, built-in int / map / str, seq a list of ints -> `Gen.binNumeral seq`
+                   (bound): the binary numeral of a 0/1 list, most significant digit first, `none` = ValueError on the empty
+                   list.  TRUSTED RULE: an element other than 0/1 is OUTSIDE the rendering (Python parses the decimal
+                   digits of every element: [10] is 2, [2] raises, [-1, 1] is -3) and is given as `none`; the theorems
+                   are stated for bit lists (`GenL.bits`).
+  max(l)           list of floats -> `Gen.pyMax` (first maximal element, empty = none); list of (float, list of float)
+                   tuples -> `Gen.pyMaxPair` (Python's lexicographic tuple / list order, `Gen.pairLt`).
+  (v, pos)         a 2-tuple of a float and a list of floats -> a Lean pair (every other display is a list, as before).
+  [] / list()      an empty list; its element type is fixed by the first `append` / list-building loop.
+  zip(a, b, c[, d]), `for p, q, r, s in …`   nested pairs `zip a (zip b (zip c d))` (length of the shortest, as zip).
+  inlined functions may end in `if / elif / else` every path of which returns (`if c then a else b`).
+  f = g / f, h = g, k / f = g if c else h    for module functions / local functions g, h, k: f is inlined at its calls like g;
+                   the conditional form evaluates c once, at the assignment (bound to a fresh Bool), a call is
+                   `if c then g(…) else h(…)` with the arguments evaluated once, before.
+  x[i] = v         `x` a local list that provably has no other reference (used only as `x = …`, `x[i] = …`, `x[i]`,
+                   `len(x)`, `return x`): state-passing `x := Gen.setItem x i v` (negative i from the end, IndexError =
+                   none; the right-hand side is evaluated first).  Storing a float into a list of ints re-types the list
+                   as floats (its int elements coerced — the rule of mixed displays).  Mutation of a PARAMETER, slice
+                   assignment, append/insert/del on anything but the one list a loop builds: refused.  numpy views are
+                   outside the rendering (the correspondence covers them).
+  for (accumulation)  the body may also bind fresh locals (any use after the loop is refused) and may raise:
+                   `List.foldlM` in Option instead of `List.foldl`; the accumulator may be a list updated by `x[i] = v`.
+  while c: body    `Gen.whileLoop (fun s => decide c) (fun s => body) fuel s0` over the tuple s of the already defined
+                   variables the body assigns (body: simple statements, no if / break / continue / return / nested loop
+                   in the source text of the body; c cannot raise).  The generated function takes an extra first argument
+                   `fuel : Nat`; its value is Python's result whenever every loop finishes within `fuel` iterations and
+                   `none` when a loop is still running after `fuel` iterations (or the body raised).  The theorem block
+                   must state the equality for EVERY fuel >= an explicit bound, which proves that bound on the number
+                   of iterations (`Gen.bin_royal_road2_eq_model`, `…_terminates`).
+  decorator factory (translate_decorator)   def D(p…): def wrap(function): @functools.wraps(function) def
+                   wrapped(individual, *args, **kargs): BODY; return function(E, *args, **kargs) / return wrapped / return
+                   wrap  ->  `Gen.D p… individual` = the value E handed to the decorated function (the other arguments
+                   and the decorated function's result are passed through untouched; BODY must not mention them).
+  class methods (translate_method)   a method as a function of the object's DECLARED fields, state-passing:
+                   `self.X` read -> parameter `self_X` (in the order of the field table), a top-level `self.X = e` ->
+                   `self_X = e`; a method without `return` that assigns exactly one field returns that field's new value.
+                   Fields hold VALUES: that `self.X = v` keeps a reference to the caller's object is outside the rendering.
+                   The decorator method `__call__(self, func)` with `@wraps(func) def wrapper(individual, *args, **kargs):
+                   return func(E, *args, **kargs)`, `wrapper.a = self.a` …, `return wrapper` -> the value E.
+                   Field types beyond the value types: FN = one of a fixed set of module functions (a generated
+                   enumeration with `.apply`; calling it is bound, it can raise), OFN = None or a total pure function
+                   list of float -> float (`if f:` is `f.isSome`, calling None is TypeError = none).
+                   A parameter declared K(False) / K(True) is specialised: no binder, `if p:` / `if not p:` keeps the branch taken.
+                   `self.m(…)` for another method m of the class that only reads fields: inlined at the call like a module
+                   function (a method of the rendered set called with the constants its rendering is specialised to:
+                   its generated definition on the same fields).
 """
 import ast
+import copy
 import decimal
 import os
 import re
@@ -96,7 +159,24 @@ def lean_type(t):
         return "List %s" % lean_type_atom(t[1])
     if t[0] == "P":
         return "%s × %s" % (lean_type_atom(t[1]), lean_type_atom(t[2]))
+    if t[0] == "FN":
+        return t[1]
+    if t[0] == "OFN":
+        return "Option (List α → α)"
     raise Refuse("no Lean type for %r" % (t,))
+
+
+def FN(enum, args, ret):
+    """one of a fixed set of module functions (generated enumeration `enum` with `enum.apply`), e.g. a peak function"""
+    return ("FN", enum, tuple(args), ret)
+
+
+OFN = ("OFN",)      # None, or a total pure user function  list of float -> float  (e.g. MovingPeaks.basis_function)
+
+
+def K(value):
+    """a parameter specialised to the constant `value` (True / False): no binder, `if <it>:` keeps one branch"""
+    return ("K", value)
 
 
 def lean_type_atom(t):
@@ -114,6 +194,13 @@ class Macro:
     """a lambda / nested def / module function, inlined at every call"""
     def __init__(self, params, body, env, name, is_expr):
         self.params, self.body, self.env, self.name, self.is_expr = params, body, env, name, is_expr
+
+
+class CondMacro:
+    """`f = g if c else h` for two inlinable functions: a call of f is `if c then g(…) else h(…)`; c is evaluated once,
+    at the assignment (bound to a fresh Bool)"""
+    def __init__(self, cond, a, b):
+        self.cond, self.a, self.b = cond, a, b
 
 
 LEAKED = object()
@@ -156,6 +243,15 @@ class FunctionTranslator:
         self.inline_depth = 0
         self.inline_stack = []
         self.ret_ty = None
+        self.uses_fuel = False
+        self.no_tape = 0
+        # a function that calls random.random() threads a TAPE: extra last parameter, result (value, rest of the tape)
+        self.uses_tape = any(self.is_random_call(nd) for nd in ast.walk(fn))
+
+    def is_random_call(self, nd):
+        return isinstance(nd, ast.Call) and isinstance(nd.func, ast.Attribute) and nd.func.attr == "random" \
+            and isinstance(nd.func.value, ast.Name) and nd.func.value.id == "random" \
+            and self.m.globals.get("random") == ("other", "random", None) and not nd.args and not nd.keywords
 
     # -- names -----------------------------------------------------------------------------
     def fresh(self, base="t"):
@@ -300,6 +396,10 @@ class FunctionTranslator:
         if isinstance(op, (ast.Add, ast.Sub, ast.Mult)):
             if isinstance(op, ast.Add) and a.ty[0] == "L" and b.ty == a.ty:
                 return Val("(%s ++ %s)" % (a.term, b.term), a.ty)
+            if isinstance(op, ast.Mult) and a.ty[0] == "L" and b.ty == I:
+                return Val("(Gen.listMul %s %s)" % (a.term, b.term), a.ty)
+            if isinstance(op, ast.Mult) and b.ty[0] == "L" and a.ty == I:
+                return Val("(Gen.listMul %s %s)" % (b.term, a.term), b.ty)
             if a.ty not in (F, I) or b.ty not in (F, I):
                 raise Refuse("arithmetic on %r, %r (line %d)" % (a.ty, b.ty, e.lineno))
             a, b = self.unify(a, b)
@@ -331,6 +431,8 @@ class FunctionTranslator:
                     return Val("(%s ^ %d)" % (a.term, b.lit), I)
             if b.ty == F and a.ty in (F, I) and (a.ty == F or a.lit is not None):
                 return Val("(RealLike.pow %s %s)" % (self.toF(a).term, b.term), F)
+            if a.ty == I and b.ty == I and b.lit is None:
+                return self.bind(sc, "Gen.ipowInt %s %s" % (a.term, b.term), I)
             raise Refuse("power %r ** %r (line %d)" % (a.ty, b.ty, e.lineno))
         raise Refuse("operator %s" % type(op).__name__)
 
@@ -358,19 +460,45 @@ class FunctionTranslator:
         raise Refuse("comparison %s" % type(op).__name__)
 
     def e_BoolOp(self, e, env, sc):
-        parts = []
+        self.no_tape += 1
+        try:
+            return self._e_BoolOp(e, env, sc)
+        finally:
+            self.no_tape -= 1
+
+    def _e_BoolOp(self, e, env, sc):
+        parts, scopes = [], []
         for v in e.values:
             sub = Scope()
             x = self.expr(v, env, sub)
-            if sub.entries:
-                raise Refuse("and/or with an operand that needs evaluation order")
             if x.ty != B:
                 raise Refuse("and/or on non-conditions")
             parts.append(x.term)
-        sym = " ∧ " if isinstance(e.op, ast.And) else " ∨ "
-        return Val("(%s)" % sym.join(parts), B)
+            scopes.append(sub)
+        if not any(sub.entries for sub in scopes):
+            sym = " ∧ " if isinstance(e.op, ast.And) else " ∨ "
+            return Val("(%s)" % sym.join(parts), B)
+        # an operand needs evaluation (it can raise): Python's short-circuit order made explicit.  The first operand is
+        # always evaluated (into the enclosing scope); operand k+1 only when the operands before it did not decide.
+        sc.entries.extend(scopes[0].entries)
+        is_and = isinstance(e.op, ast.And)
+        t = self.wrap(scopes[-1], "some (decide %s)" % parts[-1])
+        for k in range(len(parts) - 2, 0, -1):
+            t = self.wrap(scopes[k], "(if %s then %s else some false)" % (parts[k], t) if is_and
+                          else "(if %s then some true else %s)" % (parts[k], t))
+        t = "(if %s then %s else some false)" % (parts[0], t) if is_and else "(if %s then some true else %s)" % (parts[0], t)
+        n = self.fresh("c")
+        sc.entries.append(("bind", n, t))
+        return Val("(%s = true)" % n, B)
 
     def e_IfExp(self, e, env, sc):
+        self.no_tape += 1
+        try:
+            return self._e_IfExp(e, env, sc)
+        finally:
+            self.no_tape -= 1
+
+    def _e_IfExp(self, e, env, sc):
         c = self.expr(e.test, env, sc)
         if c.ty != B:
             raise Refuse("condition is not a comparison")
@@ -415,7 +543,9 @@ class FunctionTranslator:
             return self.bind(sc, "%s[%d]?" % (v.term, i.lit), v.ty[1])
         return self.bind(sc, "Gen.index %s %s" % (v.term, i.term), v.ty[1])
 
-    def seq_display(self, elts, env, sc):
+    def seq_display(self, elts, env, sc, is_list=False):
+        if not elts and is_list:
+            return Val("[]", L("?"))       # element type fixed by the first append
         if not elts:
             raise Refuse("empty list / tuple display")
         vs = [self.expr(x, env, sc) for x in elts]
@@ -429,9 +559,19 @@ class FunctionTranslator:
         return Val("[%s]" % ", ".join(v.term for v in vs), L(vs[0].ty))
 
     def e_List(self, e, env, sc):
-        return self.seq_display(e.elts, env, sc)
+        return self.seq_display(e.elts, env, sc, is_list=True)
 
     def e_Tuple(self, e, env, sc):
+        if len(e.elts) == 2 and not any(isinstance(x, ast.Starred) for x in e.elts) \
+                and not any(self.is_random_call(nd) for x in e.elts for nd in ast.walk(x)):
+            sub = Scope()
+            saved = self.counter
+            vs = [self.expr(x, env, sub) for x in e.elts]
+            if all(isinstance(v, Val) for v in vs) and vs[0].ty == F and vs[1].ty == L(F):
+                # a (value, position) tuple: a Lean pair (compared lexicographically, `Gen.pairLt`)
+                sc.entries.extend(sub.entries)
+                return Val("(%s, %s)" % (vs[0].term, vs[1].term), P(F, L(F)))
+            self.counter = saved
         return self.seq_display(e.elts, env, sc)
 
     def e_Lambda(self, e, env, sc):
@@ -443,6 +583,13 @@ class FunctionTranslator:
         return [a.arg for a in args.args]
 
     def comprehension(self, e, env, sc):
+        self.no_tape += 1
+        try:
+            return self._comprehension(e, env, sc)
+        finally:
+            self.no_tape -= 1
+
+    def _comprehension(self, e, env, sc):
         if len(e.generators) != 1:
             raise Refuse("nested comprehension")
         g = e.generators[0]
@@ -477,6 +624,18 @@ class FunctionTranslator:
             env.set(target.elts[0].id, Val("%s.1" % val.term, val.ty[1]))
             env.set(target.elts[1].id, Val("%s.2" % val.term, val.ty[2]))
             return
+        if isinstance(target, ast.Tuple) and len(target.elts) > 2 and all(isinstance(x, ast.Name) for x in target.elts):
+            term, ty = val.term, val.ty
+            for k, x in enumerate(target.elts):
+                lastone = k == len(target.elts) - 1
+                if not lastone and ty[0] != "P":
+                    raise Refuse("loop target (line %d)" % target.lineno)
+                if lastone:
+                    env.set(x.id, Val(term, ty))
+                else:
+                    env.set(x.id, Val("%s.1" % term, ty[1]))
+                    term, ty = "%s.2" % term, ty[2]
+            return
         raise Refuse("loop target (line %d)" % target.lineno)
 
     def binary_fun(self, f, env, elem_ty):
@@ -505,16 +664,66 @@ class FunctionTranslator:
         return "(fun (%s %s : %s) => %s)" % (x, y, lean_type(elem_ty), body.term)
 
     def e_Call(self, e, env, sc):
+        if isinstance(e.func, ast.Name) and e.func.id == "sorted" and env.get("sorted") is None \
+                and self.global_name("sorted") is None and len(e.args) == 1 and len(e.keywords) == 1 \
+                and e.keywords[0].arg == "reverse" and isinstance(e.keywords[0].value, ast.Constant) \
+                and e.keywords[0].value.value is True:
+            a = self.expr(e.args[0], env, sc)
+            if a.ty != L(P(F, L(F))):
+                raise Refuse("sorted(reverse=True) of %r" % (a.ty,))
+            return Val("(Gen.sortDesc %s)" % a.term, a.ty)
+        sib = getattr(self, "siblings", {}).get(e.func.id) if isinstance(e.func, ast.Name) else None
+        if sib is not None:
+            # another rendered method of the same object (translate_method): its generated definition on the same fields
+            kw = {k.arg: (k.value.value if isinstance(k.value, ast.Constant) else object()) for k in e.keywords}
+            if kw != sib["kw"] or len(e.args) != len(sib["params"]):
+                raise Refuse("call of the method %s with other arguments than its rendering is specialised to" % sib["name"])
+            vals = [self.expr(x, env, sc) for x in e.args]
+            for v, t in zip(vals, sib["params"]):
+                if v.ty != t:
+                    raise Refuse("call of the method %s: argument of type %r" % (sib["name"], v.ty))
+            fs = [env.get("self_" + f) for f in sib["fields"]]
+            if any(not isinstance(x, Val) for x in fs):
+                raise Refuse("call of the method %s: field not available" % sib["name"])
+            return self.bind(sc, "%s %s" % (sib["lean"], " ".join(x.term for x in fs + vals)), sib["ret"])
         if e.keywords:
             raise Refuse("keyword arguments (line %d)" % e.lineno)
         if any(isinstance(a, ast.Starred) for a in e.args):
             raise Refuse("starred argument")
         f = e.func
         fname = None
+        if self.is_random_call(e) and env.get("random") is None:
+            # random.random(): the next draw of the tape (exhausted tape = none); only in straight-line code, where the
+            # rest of the tape reaches the following statements
+            if self.no_tape or self.inline_depth:
+                raise Refuse("random.random() inside a loop / comprehension / conditional expression (line %d)" % e.lineno)
+            cur = env.get("__tape__")
+            n = self.fresh("r")
+            sc.entries.append(("bind", n, "Gen.popRandom %s" % cur.term))
+            env.set("__tape__", Val("%s.2" % n, L(F)))
+            return Val("%s.1" % n, F)
         if isinstance(f, ast.Name):
             b = env.get(f.id)
             if isinstance(b, Macro):
                 return self.inline(b, e.args, env, sc)
+            if isinstance(b, CondMacro):
+                return self.call_cond_macro(b, e.args, env, sc)
+            if isinstance(b, Val) and b.ty[0] == "FN":
+                if len(e.args) != len(b.ty[2]):
+                    raise Refuse("call of %s with %d arguments" % (f.id, len(e.args)))
+                vals = [self.expr(x, env, sc) for x in e.args]
+                for v, t in zip(vals, b.ty[2]):
+                    if v.ty != t:
+                        raise Refuse("call of %s: argument of type %r for %r" % (f.id, v.ty, t))
+                return self.bind(sc, "%s.apply %s %s" % (b.ty[1], b.term, " ".join(v.term for v in vals)), b.ty[3])
+            if isinstance(b, Val) and b.ty == OFN:
+                if len(e.args) != 1:
+                    raise Refuse("call of %s with %d arguments" % (f.id, len(e.args)))
+                v = self.expr(e.args[0], env, sc)
+                if v.ty != L(F):
+                    raise Refuse("call of %s on %r" % (f.id, v.ty))
+                # calling None raises TypeError (= none)
+                return self.bind(sc, "Option.map (fun (g : List α → α) => g %s) %s" % (v.term, b.term), F)
             if b is not None:
                 raise Refuse("call of the value %s" % f.id)
             g = self.global_name(f.id)
@@ -580,6 +789,19 @@ class FunctionTranslator:
                 raise Refuse("abs of %r" % (a.ty,))
             if name == "float" and n == 1:
                 return self.toF(self.expr(e.args[0], env, sc))
+            if name == "int" and n == 1:
+                a = self.expr(e.args[0], env, sc)
+                if a.ty != I:
+                    raise Refuse("int() of %r" % (a.ty,))
+                return a
+            if name == "int" and n == 2:
+                seq = self.bin_numeral_arg(e, env)
+                if seq is None:
+                    raise Refuse("int(s, base) other than int(\"\".join(map(str, seq)), 2) (line %d)" % e.lineno)
+                a = self.expr(seq, env, sc)
+                if a.ty != L(I):
+                    raise Refuse("binary numeral of %r" % (a.ty,))
+                return self.bind(sc, "Gen.binNumeral %s" % a.term, I)
             if name == "sum" and n == 1:
                 a = self.expr(e.args[0], env, sc)
                 if a.ty == L(F):
@@ -587,6 +809,23 @@ class FunctionTranslator:
                 if a.ty == L(I):
                     return Val("(Gen.isum %s)" % a.term, I)
                 raise Refuse("sum of %r" % (a.ty,))
+            if name == "list" and n == 0:
+                return Val("[]", L("?"))
+            if name == "max" and n == 1:
+                a = self.expr(e.args[0], env, sc)
+                if a.ty == L(P(F, L(F))):
+                    return self.bind(sc, "Gen.pyMaxPair %s" % a.term, P(F, L(F)))
+                if a.ty != L(F):
+                    raise Refuse("max of %r" % (a.ty,))
+                return self.bind(sc, "Gen.pyMax %s" % a.term, F)
+            if name == "zip" and n in (3, 4):
+                vs = [self.expr(x, env, sc) for x in e.args]
+                if any(v.ty[0] != "L" or v.ty[1] == "?" for v in vs):
+                    raise Refuse("zip of non-lists")
+                term, ty = vs[-1].term, vs[-1].ty[1]
+                for v in reversed(vs[:-1]):
+                    term, ty = "(List.zip %s %s)" % (v.term, term), P(v.ty[1], ty)
+                return Val(term, L(ty))
             if name == "zip" and n == 2:
                 a = self.expr(e.args[0], env, sc)
                 b = self.expr(e.args[1], env, sc)
@@ -610,7 +849,9 @@ class FunctionTranslator:
                     return Val("(Gen.rangeDown %s %s)" % (args[0].term, args[1].term), L(I))
                 if args[2].lit == 1:
                     return Val("(Gen.range %s %s)" % (args[0].term, args[1].term), L(I))
-                raise Refuse("range with a step other than 1 / -1")
+                if args[2].lit is not None and args[2].lit >= 2:
+                    return Val("(Gen.rangeStep %s %s %d)" % (args[0].term, args[1].term, args[2].lit), L(I))
+                raise Refuse("range with a step that is not a positive literal or -1")
             if name == "reversed" and n == 1:
                 a = self.expr(e.args[0], env, sc)
                 if a.ty[0] != "L":
@@ -624,6 +865,22 @@ class FunctionTranslator:
             raise Refuse("call of %s/%d (line %d)" % (name, n, e.lineno))
         raise Refuse("call of %r" % (fname,))
 
+    def bin_numeral_arg(self, e, env):
+        """`seq` when `e` is exactly `int("".join(map(str, seq)), 2)` with the built-in int / map / str, else None"""
+        def builtin(node, nm):
+            return isinstance(node, ast.Name) and node.id == nm and env.get(nm) is None and self.global_name(nm) is None
+        a, b = e.args
+        if not (isinstance(b, ast.Constant) and b.value == 2 and not isinstance(b.value, bool) and isinstance(b.value, int)):
+            return None
+        if not (isinstance(a, ast.Call) and not a.keywords and len(a.args) == 1 and isinstance(a.func, ast.Attribute)
+                and a.func.attr == "join" and isinstance(a.func.value, ast.Constant) and a.func.value.value == ""):
+            return None
+        m = a.args[0]
+        if not (isinstance(m, ast.Call) and not m.keywords and len(m.args) == 2 and builtin(m.func, "map")
+                and builtin(m.args[0], "str") and builtin(e.func, "int")):
+            return None
+        return m.args[1]
+
     # -- inlining --------------------------------------------------------------------------
     def inline(self, mac, args, env, sc):
         if len(args) != len(mac.params):
@@ -631,6 +888,46 @@ class FunctionTranslator:
         if mac.name in self.inline_stack:
             raise Refuse("recursion through %s" % mac.name)
         vals = [self.expr(a, env, sc) for a in args]
+        return self.inline_vals(mac, vals, sc)
+
+    def function_value(self, node, env):
+        """the Macro a function-valued expression denotes (a module function, a local function), else None"""
+        if isinstance(node, ast.Name):
+            b = env.get(node.id)
+            if isinstance(b, (Macro, CondMacro)):
+                return b
+            if b is None:
+                g = self.global_name(node.id)
+                if g is not None and g[0] == "func" and not g[1].decorator_list and g[1].name != self.fn.name:
+                    return Macro(self.params_of(g[1].args), g[1].body, Env(), g[1].name, False)
+        return None
+
+    def call_cond_macro(self, cm, args, env, sc):
+        vals = []
+        for a in args:
+            v = self.expr(a, env, sc)
+            if isinstance(v, Macro) or isinstance(v, CondMacro):
+                raise Refuse("function passed as an argument")
+            if not (v.term.isidentifier() or v.lit is not None):
+                n = self.fresh("a")
+                sc.entries.append(("let", n, v.term))
+                v = Val(n, v.ty)
+            vals.append(v)
+        sa, sb = Scope(), Scope()
+        a = self.inline_vals(cm.a, vals, sa) if isinstance(cm.a, Macro) else None
+        b = self.inline_vals(cm.b, vals, sb) if isinstance(cm.b, Macro) else None
+        if a is None or b is None or isinstance(a, Macro) or isinstance(b, Macro) or a.ty != b.ty or a.ty == B:
+            raise Refuse("conditional function value with branches of different types")
+        if not sa.partial() and not sb.partial():
+            return Val("(if %s then %s else %s)" % (cm.cond, self.wrap_pure(sa, a.term), self.wrap_pure(sb, b.term)), a.ty)
+        return self.bind(sc, "(if %s then %s else %s)" % (cm.cond, self.wrap(sa, "some %s" % a.term),
+                                                         self.wrap(sb, "some %s" % b.term)), a.ty)
+
+    def inline_vals(self, mac, vals, sc):
+        if len(vals) != len(mac.params):
+            raise Refuse("call of %s with %d arguments" % (mac.name, len(vals)))
+        if mac.name in self.inline_stack:
+            raise Refuse("recursion through %s" % mac.name)
         self.inline_stack.append(mac.name)
         self.inline_depth += 1
         try:
@@ -651,15 +948,36 @@ class FunctionTranslator:
             if body and isinstance(body[0], ast.Expr) and isinstance(body[0].value, ast.Constant) \
                     and isinstance(body[0].value.value, str):
                 body = body[1:]
-            if not body or not isinstance(body[-1], ast.Return) or body[-1].value is None:
-                raise Refuse("inlined function %s does not end in `return e`" % mac.name)
-            for st in body[:-1]:
-                if not self.simple_stmt(st, inner, sc):
-                    raise Refuse("inlined function %s: statement %s" % (mac.name, type(st).__name__))
-            return self.expr(body[-1].value, inner, sc)
+            return self.inline_block(body, inner, sc, mac.name)
         finally:
             self.inline_depth -= 1
             self.inline_stack.pop()
+
+    def inline_block(self, stmts, env, sc, name):
+        """value of an inlined function body: simple statements, then `return e`, or an `if / elif / else` every path of
+        which ends in `return e` (the rest of the block is duplicated into both branches) -> `if c then a else b`"""
+        for k, st in enumerate(stmts):
+            if isinstance(st, ast.Return):
+                if st.value is None:
+                    raise Refuse("inlined function %s: bare return" % name)
+                return self.expr(st.value, env, sc)
+            if isinstance(st, ast.If):
+                c = self.expr(st.test, env, sc)
+                if c.ty != B:
+                    raise Refuse("condition is not a comparison")
+                rest = stmts[k + 1:]
+                sa, sb = Scope(), Scope()
+                a = self.inline_block(list(st.body) + rest, Env(env), sa, name)
+                b = self.inline_block(list(st.orelse) + rest, Env(env), sb, name)
+                if isinstance(a, Macro) or isinstance(b, Macro) or a.ty != b.ty or a.ty == B:
+                    raise Refuse("inlined function %s returns different types on its paths" % name)
+                if not sa.partial() and not sb.partial():
+                    return Val("(if %s then %s else %s)" % (c.term, self.wrap_pure(sa, a.term), self.wrap_pure(sb, b.term)), a.ty)
+                return self.bind(sc, "(if %s then %s else %s)" % (c.term, self.wrap(sa, "some %s" % a.term),
+                                                                 self.wrap(sb, "some %s" % b.term)), a.ty)
+            if not self.simple_stmt(st, env, sc):
+                raise Refuse("inlined function %s: statement %s" % (name, type(st).__name__))
+        raise Refuse("inlined function %s does not end in `return e`" % name)
 
     # -- rendering of scopes ---------------------------------------------------------------
     def wrap(self, sc, final):
@@ -681,14 +999,59 @@ class FunctionTranslator:
 
     # -- statements ------------------------------------------------------------------------
     def assign(self, name, val, env, sc):
-        if isinstance(val, Macro):
+        if isinstance(val, (Macro, CondMacro)):
             env.set(name, val)
             return
         if val.ty == B:
             raise Refuse("condition stored in a variable")
+        if val.ty == L("?"):
+            env.set(name, val)          # an empty list whose element type is not known yet: no `let`
+            return
         n = self.lname(name) if self.inline_depth == 0 else self.fresh(self.lname(name) + "_")
         sc.entries.append(("let", n, val.term))
         env.set(name, Val(n, val.ty))
+
+    def unaliased_local_list(self, name):
+        """True when `name` is a local (not a parameter) of the function being translated that is only ever used as
+        `name = …`, `name[i] = …`, `name[i]`, `len(name)`, `return name` / the value handed on by a decorator: no other
+        reference to the list object can exist, so updating it in state-passing style is faithful"""
+        if self.inline_depth != 0 or name in [a.arg for a in self.fn.args.args]:
+            return False
+        ok = set()
+        for node in ast.walk(self.fn):
+            if isinstance(node, ast.Subscript) and isinstance(node.value, ast.Name):
+                ok.add(id(node.value))
+            elif isinstance(node, ast.Call) and isinstance(node.func, ast.Name) and node.func.id == "len" and len(node.args) == 1:
+                ok.add(id(node.args[0]))
+            elif isinstance(node, ast.Return) and node.value is not None:
+                ok.add(id(node.value))
+        for node in ast.walk(self.fn):
+            if isinstance(node, ast.Name) and node.id == name and not isinstance(node.ctx, ast.Store) and id(node) not in ok:
+                return False
+            if isinstance(node, (ast.Global, ast.Nonlocal)):
+                return False
+        return True
+
+    def item_assign(self, st, env, sc):
+        """`x[i] = v` on an unaliased local list -> `x := Gen.setItem x i v` (IndexError = none)"""
+        t = st.targets[0]
+        name = t.value.id
+        lst = env.get(name)
+        if not isinstance(lst, Val) or lst.ty[0] != "L" or lst.ty[1] not in (F, I):
+            raise Refuse("item assignment on %s (line %d)" % (name, st.lineno))
+        if not self.unaliased_local_list(name):
+            raise Refuse("item assignment on %s, which may have another reference (line %d)" % (name, st.lineno))
+        v = self.expr(st.value, env, sc)      # Python evaluates the right-hand side first
+        i = self.expr(t.slice, env, sc)
+        if i.ty != I or isinstance(v, Macro) or v.ty not in (F, I):
+            raise Refuse("item assignment x[%r] = %r" % (i.ty, getattr(v, "ty", None)))
+        lt = lst
+        if lst.ty[1] == I and v.ty == F:
+            lt = Val("(List.map (fun (z : Int) => (Gen.ofInt z : α)) %s)" % lst.term, L(F))
+        elif lst.ty[1] == F and v.ty == I:
+            v = self.toF(v)
+        r = self.bind(sc, "Gen.setItem %s %s %s" % (lt.term, i.term, v.term), lt.ty, "l")
+        self.assign(name, r, env, sc)
 
     def simple_stmt(self, st, env, sc):
         """statements that only extend the scope (no control flow leaves them); False = not one of them"""
@@ -699,6 +1062,11 @@ class FunctionTranslator:
                 and all(isinstance(t, ast.Name) for t in st.targets[0].elts) \
                 and not any(isinstance(v, (ast.Starred, ast.Lambda)) for v in st.value.elts):
             # a, b = e1, e2 : the right-hand sides are evaluated first, then bound left to right
+            fvs = [self.function_value(v, env) for v in st.value.elts]
+            if all(isinstance(x, Macro) for x in fvs):
+                for t, x in zip(st.targets[0].elts, fvs):
+                    self.assign(t.id, x, env, sc)
+                return True
             vals = [self.expr(v, env, sc) for v in st.value.elts]
             tmps = []
             for t, v in zip(st.targets[0].elts, vals):
@@ -710,10 +1078,28 @@ class FunctionTranslator:
             for t, v in zip(st.targets[0].elts, tmps):
                 self.assign(t.id, v, env, sc)
             return True
+        if isinstance(st, ast.Assign) and len(st.targets) == 1 and isinstance(st.targets[0], ast.Subscript) \
+                and isinstance(st.targets[0].value, ast.Name) and not isinstance(st.targets[0].slice, ast.Slice):
+            self.item_assign(st, env, sc)
+            return True
         if isinstance(st, ast.Assign):
             if len(st.targets) != 1 or not isinstance(st.targets[0], ast.Name):
                 raise Refuse("assignment target (line %d)" % st.lineno)
             name = st.targets[0].id
+            fv = self.function_value(st.value, env)
+            if fv is not None:
+                self.assign(name, fv, env, sc)          # f = g  (a module function / local function as a value)
+                return True
+            if isinstance(st.value, ast.IfExp):
+                fa, fb = self.function_value(st.value.body, env), self.function_value(st.value.orelse, env)
+                if isinstance(fa, Macro) and isinstance(fb, Macro):
+                    c = self.expr(st.value.test, env, sc)
+                    if c.ty != B:
+                        raise Refuse("condition is not a comparison")
+                    n = self.fresh("c")
+                    sc.entries.append(("let", n, "decide %s" % c.term))
+                    self.assign(name, CondMacro("(%s = true)" % n, fa, fb), env, sc)
+                    return True
             if isinstance(st.value, ast.Lambda):
                 self.assign(name, Macro(self.params_of(st.value.args), st.value.body, env, name, True), env, sc)
             else:
@@ -739,6 +1125,11 @@ class FunctionTranslator:
             if not isinstance(lst, Val) or lst.ty[0] != "L":
                 raise Refuse("%s.%s on a non-list" % (name, st.value.func.attr))
             a = self.expr(st.value.args[0], env, sc)
+            if lst.ty[1] == "?":
+                if isinstance(a, Macro) or a.ty == B:
+                    raise Refuse("append of a function / condition")
+                lst = Val("([] : List %s)" % lean_type_atom(a.ty if st.value.func.attr == "append" else a.ty[1]),
+                          L(a.ty) if st.value.func.attr == "append" else a.ty)
             if st.value.func.attr == "append":
                 if a.ty == I and lst.ty[1] == F:
                     a = self.toF(a)
@@ -753,6 +1144,9 @@ class FunctionTranslator:
         if isinstance(st, ast.For):
             self.for_loop(st, env, sc)
             return True
+        if isinstance(st, ast.While):
+            self.while_loop(st, env, sc)
+            return True
         return False
 
     def assigned_names(self, stmts):
@@ -762,6 +1156,9 @@ class FunctionTranslator:
                 if isinstance(node, (ast.Assign, ast.AugAssign)):
                     ts = node.targets if isinstance(node, ast.Assign) else [node.target]
                     for t in ts:
+                        if isinstance(t, ast.Subscript) and isinstance(t.value, ast.Name) and isinstance(node, ast.Assign):
+                            out.add(t.value.id)
+                            continue
                         if not isinstance(t, ast.Name):
                             raise Refuse("assignment target inside a loop")
                         out.add(t.id)
@@ -773,6 +1170,13 @@ class FunctionTranslator:
         return out, appended
 
     def for_loop(self, st, env, sc):
+        self.no_tape += 1
+        try:
+            return self._for_loop(st, env, sc)
+        finally:
+            self.no_tape -= 1
+
+    def _for_loop(self, st, env, sc):
         if st.orelse:
             raise Refuse("for/else")
         assigned, appended = self.assigned_names(st.body)
@@ -789,13 +1193,54 @@ class FunctionTranslator:
         outer_assigned = [n for n in sorted(assigned) if isinstance(env.get(n), Val)]
         if not appended:
             # accumulation
-            if len(outer_assigned) != 1 or len(assigned) != 1:
+            if len(outer_assigned) != 1:
                 raise Refuse("loop that assigns %s (exactly one accumulator is supported)" % sorted(assigned))
             acc = outer_assigned[0]
             cur = env.get(acc)
+            locals_ = sorted(assigned - {acc})
+            if any(env.get(n) is not None for n in locals_):
+                raise Refuse("loop that assigns %s (exactly one accumulator is supported)" % sorted(assigned))
             a = self.fresh("acc")
             inner.set(acc, Val(a, cur.ty))
-            body = self.acc_block(list(st.body), inner, acc, cur.ty)
+            body = None
+            if not locals_:
+                saved = self.counter
+                try:
+                    body = self.acc_block(list(st.body), inner, acc, cur.ty)
+                except Refuse as ex:
+                    if "can raise" not in str(ex):
+                        raise
+                    self.counter = saved
+                    inner = Env(env)
+                    self.bind_target(st.target, Val(p, src.ty[1]), inner)
+                    inner.set(acc, Val(a, cur.ty))
+            if body is None:
+                # the body binds fresh locals (refused after the loop) and / or can raise: `List.foldlM` in Option
+                saved = self.counter
+                try:
+                    tree = self.acc_tree(list(st.body), inner, acc, cur.ty)
+                except Refuse as ex:
+                    if "accumulator changes type" not in str(ex) or cur.ty != L(I):
+                        raise
+                    # a list of ints into which the body stores floats: the list is a list of floats from the start
+                    # (its int elements coerced — the rule of mixed displays)
+                    self.counter = saved
+                    cur = Val("(List.map (fun (z : Int) => (Gen.ofInt z : α)) %s)" % cur.term, L(F))
+                    inner = Env(env)
+                    self.bind_target(st.target, Val(p, src.ty[1]), inner)
+                    inner.set(acc, Val(a, cur.ty))
+                    tree = self.acc_tree(list(st.body), inner, acc, cur.ty)
+                partial = self.tree_partial(tree)
+                body = self.render_tree(tree, partial)
+                for n in locals_:
+                    env.set(n, LEAKED)
+                lam = "(fun (%s : %s) (%s : %s) => %s)" % (a, lean_type(cur.ty), p, lean_type(src.ty[1]), body)
+                if partial:
+                    r = self.bind(sc, "List.foldlM %s %s %s" % (lam, cur.term, src.term), cur.ty)
+                    self.assign(acc, r, env, sc)
+                else:
+                    self.assign(acc, Val("(List.foldl %s %s %s)" % (lam, cur.term, src.term), cur.ty), env, sc)
+                return
             term = "(List.foldl (fun (%s : %s) (%s : %s) => %s) %s %s)" % (a, lean_type(cur.ty), p, lean_type(src.ty[1]), body,
                                                                           cur.term, src.term)
             self.assign(acc, Val(term, cur.ty), env, sc)
@@ -815,9 +1260,20 @@ class FunctionTranslator:
         for node in ast.walk(ast.Module(body=st.body, type_ignores=[])):
             if isinstance(node, ast.Name) and node.id == name and id(node) not in receivers:
                 raise Refuse("loop body reads the list it builds")
-        tree, partial = self.build_block(list(st.body), inner, name, lst.ty[1])
+        if lst.ty[1] == "?":
+            self.infer_elem = None
+            tree, partial = self.build_block(list(st.body), inner, name, "?")
+            lst = Val("([] : List %s)" % lean_type_atom(self.infer_elem), L(self.infer_elem))
+        else:
+            tree, partial = self.build_block(list(st.body), inner, name, lst.ty[1])
         bt = "fun (%s : %s) => " % (p, lean_type(src.ty[1]))
-        if partial:
+        if self.last_skip:
+            if partial:
+                l = self.bind(sc, "List.mapM (%s%s) %s" % (bt, tree, src.term), lst.ty, "l")
+                self.assign(name, Val("(%s ++ List.filterMap id %s)" % (lst.term, l.term), lst.ty), env, sc)
+            else:
+                self.assign(name, Val("(%s ++ List.filterMap (%s%s) %s)" % (lst.term, bt, tree, src.term), lst.ty), env, sc)
+        elif partial:
             l = self.bind(sc, "List.mapM (%s%s) %s" % (bt, tree, src.term), lst.ty, "l")
             self.assign(name, Val("(%s ++ %s)" % (lst.term, l.term), lst.ty), env, sc)
         else:
@@ -850,13 +1306,105 @@ class FunctionTranslator:
             raise Refuse("accumulator changes type")
         return self.wrap_pure(sub, v.term)
 
+    def acc_tree(self, stmts, env, acc, ty):
+        """like acc_block, as a tree for render_tree: the body may bind locals and raise"""
+        sub = Scope()
+        for k, st in enumerate(stmts):
+            if isinstance(st, ast.If):
+                c = self.expr(st.test, env, sub)
+                if c.ty != B:
+                    raise Refuse("condition is not a comparison")
+                rest = stmts[k + 1:]
+                a = self.acc_tree(list(st.body) + rest, Env(env), acc, ty)
+                b = self.acc_tree(list(st.orelse) + rest, Env(env), acc, ty)
+                return ("if", sub, c.term, a, b)
+            if isinstance(st, ast.Continue):
+                break
+            if isinstance(st, (ast.Assign, ast.AugAssign)):
+                self.simple_stmt(st, env, sub)
+                continue
+            raise Refuse("statement %s in an accumulation loop" % type(st).__name__)
+        v = env.get(acc)
+        if v.ty != ty:
+            raise Refuse("accumulator changes type")
+        return ("leaf", sub, v.term)
+
+    def tuple_proj(self, s, k, n):
+        if n == 1:
+            return s
+        return "%s%s%s" % (s, ".2" * k, ".1" if k < n - 1 else "")
+
+    def while_loop(self, st, env, sc):
+        self.no_tape += 1
+        try:
+            return self._while_loop(st, env, sc)
+        finally:
+            self.no_tape -= 1
+
+    def _while_loop(self, st, env, sc):
+        """`while c: body` -> `Gen.whileLoop c body fuel state` (state = the already defined variables the body assigns)"""
+        if st.orelse:
+            raise Refuse("while/else")
+        assigned = set()
+        for b in st.body:
+            for node in ast.walk(b):
+                if isinstance(node, (ast.Assign, ast.AugAssign)):
+                    ts = node.targets if isinstance(node, ast.Assign) else [node.target]
+                    for t in ts:
+                        for x in ([t] if not isinstance(t, ast.Tuple) else t.elts):
+                            if not isinstance(x, ast.Name):
+                                raise Refuse("assignment target inside a while body")
+                            assigned.add(x.id)
+                elif isinstance(node, (ast.For, ast.While, ast.Return, ast.Break, ast.Continue, ast.FunctionDef, ast.Lambda,
+                                       ast.Try, ast.With, ast.If)):
+                    raise Refuse("%s inside a while body" % type(node).__name__)
+                elif isinstance(node, ast.Call) and isinstance(node.func, ast.Attribute) and isinstance(node.func.value, ast.Name) \
+                        and env.get(node.func.value.id) is not None:
+                    raise Refuse("method call on a variable inside a while body")
+        state = [n for n in sorted(assigned) if isinstance(env.get(n), Val)]
+        locals_ = sorted(assigned - set(state))
+        if not state or any(env.get(n) is not None for n in locals_):
+            raise Refuse("while body that assigns %s" % sorted(assigned))
+        tys = [env.get(n).ty for n in state]
+        if any(t == B for t in tys):
+            raise Refuse("condition stored in a variable")
+        sty = " × ".join(lean_type_atom(t) for t in tys)
+        s = self.fresh("s")
+        inner_c, inner_b = Env(env), Env(env)
+        for k, (n, t) in enumerate(zip(state, tys)):
+            inner_c.set(n, Val(self.tuple_proj(s, k, len(state)), t))
+            inner_b.set(n, Val(self.tuple_proj(s, k, len(state)), t))
+        sub = Scope()
+        c = self.expr(st.test, inner_c, sub)
+        if sub.entries or c.ty != B:
+            raise Refuse("while condition that needs evaluation or is not a comparison")
+        sub = Scope()
+        for b in st.body:
+            if not self.simple_stmt(b, inner_b, sub):
+                raise Refuse("statement %s in a while body" % type(b).__name__)
+        final = "some (%s)" % ", ".join(inner_b.get(n).term for n in state)
+        init = "(%s)" % ", ".join(env.get(n).term for n in state)
+        self.uses_fuel = True
+        w = self.fresh("w")
+        sc.entries.append(("bind", w, "Gen.whileLoop (fun (%s : %s) => decide %s) (fun (%s : %s) => %s) fuel %s"
+                           % (s, sty, c.term, s, sty, self.wrap(sub, final), init)))
+        for k, (n, t) in enumerate(zip(state, tys)):
+            self.assign(n, Val(self.tuple_proj(w, k, len(state)), t), env, sc)
+        for n in locals_:
+            env.set(n, LEAKED)
+
     def build_block(self, stmts, env, lst, elem_ty, appended=None):
         """(term, partial): the element appended by one iteration — exactly one append on every path.
         partial -> term : Option elem, else term : elem"""
         # first pass: try pure, second: partial; implemented by building a tree and rendering it twice
-        tree = self.build_tree(stmts, env, lst, elem_ty, None)
+        self.allow_skip = True
+        try:
+            tree = self.build_tree(stmts, env, lst, elem_ty, None)
+        finally:
+            self.allow_skip = False
         partial = self.tree_partial(tree)
-        return self.render_tree(tree, partial), partial
+        self.last_skip = self.tree_skips(tree)
+        return self.render_tree(tree, partial, self.last_skip), partial
 
     def build_tree(self, stmts, env, lst, elem_ty, got):
         sub = Scope()
@@ -877,9 +1425,16 @@ class FunctionTranslator:
                 if got is not None:
                     raise Refuse("two appends on one path of a loop body")
                 v = self.expr(st.value.args[0], env, sub)
-                if v.ty == I and elem_ty == F:
+                if elem_ty == "?":
+                    if isinstance(v, Macro) or v.ty == B:
+                        raise Refuse("append of a function / condition")
+                    if self.infer_elem is None:
+                        self.infer_elem = v.ty
+                    if self.infer_elem != v.ty:
+                        raise Refuse("appends of different types")
+                elif v.ty == I and elem_ty == F:
                     v = self.toF(v)
-                if v.ty != elem_ty:
+                if elem_ty != "?" and v.ty != elem_ty:
                     raise Refuse("append of %r to a list of %r" % (v.ty, elem_ty))
                 got = v.term
                 continue
@@ -888,7 +1443,9 @@ class FunctionTranslator:
                 continue
             raise Refuse("statement %s in a list-building loop" % type(st).__name__)
         if got is None:
-            raise Refuse("a path of the loop body appends nothing")
+            if not getattr(self, "allow_skip", False):
+                raise Refuse("a path of the loop body appends nothing")
+            return ("leaf", sub, None)
         return ("leaf", sub, got)
 
     def tree_partial(self, t):
@@ -896,7 +1453,19 @@ class FunctionTranslator:
             return t[1].partial()
         return t[1].partial() or self.tree_partial(t[3]) or self.tree_partial(t[4])
 
-    def render_tree(self, t, partial):
+    def tree_skips(self, t):
+        if t[0] == "leaf":
+            return t[2] is None
+        return self.tree_skips(t[3]) or self.tree_skips(t[4])
+
+    def render_tree(self, t, partial, skip=False):
+        if skip:
+            # a loop whose body appends on some paths only: one iteration yields an Option (none = nothing appended)
+            if t[0] == "leaf":
+                v = "none" if t[2] is None else "(some %s)" % t[2]
+                return self.wrap(t[1], "some %s" % v) if partial else self.wrap_pure(t[1], v)
+            inner = "(if %s then %s else %s)" % (t[2], self.render_tree(t[3], partial, True), self.render_tree(t[4], partial, True))
+            return self.wrap(t[1], inner) if partial else self.wrap_pure(t[1], inner)
         if t[0] == "leaf":
             return self.wrap(t[1], "some %s" % t[2]) if partial else self.wrap_pure(t[1], t[2])
         inner = "(if %s then %s else %s)" % (t[2], self.render_tree(t[3], partial), self.render_tree(t[4], partial))
@@ -920,9 +1489,20 @@ class FunctionTranslator:
                     if {self.ret_ty, v.ty} == {F, I}:
                         raise Refuse("returns int on one path and float on another")
                     raise Refuse("returns of different types")
+                if self.uses_tape:
+                    return self.wrap(sc, "some (%s, %s)" % (v.term, env.get("__tape__").term))
                 return self.wrap(sc, "some %s" % v.term)
             if isinstance(st, ast.If):
+                kt, neg = st.test, False
+                if isinstance(kt, ast.UnaryOp) and isinstance(kt.op, ast.Not):
+                    kt, neg = kt.operand, True
+                if isinstance(kt, ast.Name) and isinstance(env.get(kt.id), Val) and env.get(kt.id).ty[0] == "K":
+                    # a parameter specialised to a constant: only the branch taken is rendered
+                    chosen = st.body if bool(env.get(kt.id).ty[1]) != neg else st.orelse
+                    return self.wrap(sc, self.block(list(chosen) + stmts[k + 1:], env))
                 c = self.expr(st.test, env, sc)
+                if isinstance(c, Val) and c.ty == OFN:
+                    c = Val("(%s.isSome = true)" % c.term, B)      # a function object is true, None is false
                 if c.ty != B:
                     raise Refuse("condition is not a comparison")
                 rest = stmts[k + 1:]
@@ -943,8 +1523,16 @@ class FunctionTranslator:
             if p not in self.sig:
                 raise Refuse("no declared type for parameter %s" % p)
             n = self.lname(p)
+            if self.sig[p][0] == "K":
+                env.set(p, Val("<constant>", self.sig[p]))
+                continue
             env.set(p, Val(n, self.sig[p]))
             binders.append("(%s : %s)" % (n, lean_type(self.sig[p])))
+        for hname, (hps, hbody, hn) in getattr(self, "helper_macros", {}).items():
+            env.set(hname, Macro(hps, hbody, env, "method " + hn, False))
+        if self.uses_tape:
+            env.set("__tape__", Val("tape", L(F)))
+            binders.append("(tape : List α)")
         body = self.block(list(fn.body), env)
         defaults = []
         nd = len(fn.args.defaults)
@@ -958,6 +1546,11 @@ class FunctionTranslator:
             if v.ty != self.sig[p]:
                 raise Refuse("default of %s has type %r" % (p, v.ty))
             defaults.append("def %s_dflt_%s : %s := %s" % (lean_name, p, lean_type(self.sig[p]), v.term))
+        if self.uses_fuel:
+            binders.insert(0, "(fuel : Nat)")
+        if self.uses_tape:
+            text = "def %s %s : Option (%s × List α) :=\n  %s" % (lean_name, " ".join(binders), lean_type(self.ret_ty), body)
+            return "\n".join([text] + defaults), self.ret_ty
         text = "def %s %s : Option %s :=\n  %s" % (lean_name, " ".join(binders), lean_type_atom(self.ret_ty), body)
         return "\n".join([text] + defaults), self.ret_ty
 
@@ -1010,6 +1603,263 @@ def translate_function(module, name, sig, lean_name):
     if fn is None:
         raise Refuse("no module-level function %s" % name)
     return FunctionTranslator(module, fn, sig).translate(lean_name)
+
+
+def translate_decorator(module, name, sig, lean_name):
+    """the decorator-factory shape
+           def NAME(p1, …):
+               def wrap(function):
+                   @wraps(function)                       # functools.wraps
+                   def wrapped(individual, *args, **kargs):
+                       BODY
+                       return function(E, *args, **kargs)
+                   return wrapped
+               return wrap
+    is rendered as `Gen.NAME p1 … individual` = the value E handed to the decorated function as its first argument (the
+    other arguments are passed through untouched, the decorated function's result is returned untouched).  BODY must not
+    mention `function`, `args`, `kargs` and must not assign p1 …  -> (lean text, result type); raises Refuse"""
+    fn = module.functions.get(name)
+    if fn is None:
+        raise Refuse("no module-level function %s" % name)
+
+    def strip(body):
+        body = list(body)
+        if body and isinstance(body[0], ast.Expr) and isinstance(body[0].value, ast.Constant) and isinstance(body[0].value.value, str):
+            body = body[1:]
+        return body
+    ob = strip(fn.body)
+    if fn.decorator_list or len(ob) != 2 or not isinstance(ob[0], ast.FunctionDef) or not isinstance(ob[1], ast.Return) \
+            or not isinstance(ob[1].value, ast.Name) or ob[1].value.id != ob[0].name:
+        raise Refuse("not a decorator factory")
+    wrap = ob[0]
+    wb = strip(wrap.body)
+    if wrap.decorator_list or len(wrap.args.args) != 1 or wrap.args.vararg or wrap.args.kwarg or len(wb) != 2 \
+            or not isinstance(wb[0], ast.FunctionDef) or not isinstance(wb[1], ast.Return) \
+            or not isinstance(wb[1].value, ast.Name) or wb[1].value.id != wb[0].name:
+        raise Refuse("not a decorator factory")
+    fparam = wrap.args.args[0].arg
+    inner = wb[0]
+    d = inner.decorator_list
+    if len(d) != 1 or not (isinstance(d[0], ast.Call) and isinstance(d[0].func, ast.Name) and len(d[0].args) == 1
+                           and not d[0].keywords and isinstance(d[0].args[0], ast.Name) and d[0].args[0].id == fparam
+                           and module.globals.get(d[0].func.id) == ("other", "functools", "wraps")):
+        raise Refuse("inner function is not decorated by functools.wraps(function) only")
+    ia = inner.args
+    if len(ia.args) != 1 or ia.vararg is None or ia.kwarg is None or ia.kwonlyargs or ia.posonlyargs or ia.defaults:
+        raise Refuse("inner function is not (individual, *args, **kargs)")
+    va, kw = ia.vararg.arg, ia.kwarg.arg
+    ib = strip(inner.body)
+    last = ib[-1] if ib else None
+    if not (isinstance(last, ast.Return) and isinstance(last.value, ast.Call) and isinstance(last.value.func, ast.Name)
+            and last.value.func.id == fparam and len(last.value.args) == 2 and isinstance(last.value.args[1], ast.Starred)
+            and isinstance(last.value.args[1].value, ast.Name) and last.value.args[1].value.id == va
+            and len(last.value.keywords) == 1 and last.value.keywords[0].arg is None
+            and isinstance(last.value.keywords[0].value, ast.Name) and last.value.keywords[0].value.id == kw):
+        raise Refuse("inner function does not end in `return function(E, *args, **kargs)`")
+    handed = last.value.args[0]
+    outer = [a.arg for a in fn.args.args]
+    if fn.args.vararg or fn.args.kwarg or fn.args.kwonlyargs or fn.args.posonlyargs or fn.args.defaults:
+        raise Refuse("*args / defaults on the decorator factory")
+    new_body = ib[:-1] + [ast.Return(value=handed, lineno=last.lineno, col_offset=last.col_offset)]
+    for st in new_body:
+        for node in ast.walk(st):
+            if isinstance(node, ast.Name) and node.id in (fparam, va, kw):
+                raise Refuse("the body uses %s" % node.id)
+            if isinstance(node, ast.Name) and isinstance(node.ctx, ast.Store) and node.id in outer:
+                raise Refuse("the body assigns the captured parameter %s" % node.id)
+            if isinstance(node, (ast.Global, ast.Nonlocal)):
+                raise Refuse("global / nonlocal")
+    if ia.args[0].arg in outer:
+        raise Refuse("parameter name used twice")
+    synth = ast.FunctionDef(name=name, args=ast.arguments(posonlyargs=[], args=list(fn.args.args) + [ia.args[0]], vararg=None,
+                                                          kwonlyargs=[], kw_defaults=[], kwarg=None, defaults=[]),
+                            body=new_body, decorator_list=[], returns=None, lineno=fn.lineno, col_offset=fn.col_offset)
+    return FunctionTranslator(module, synth, sig).translate(lean_name)
+
+
+METHOD_INFO = {}     # lean name -> dict(fields read, parameter types, result type) of the methods rendered so far
+
+
+def translate_method(module, cls, meth, fields, sig, lean_name, decorator=False, siblings=None):
+    """a method of a class, as a function of the object's fields (state-passing).
+    `self.X` (X in `fields`) read -> the parameter / local `self_X`; a top-level statement `self.X = e` -> `self_X = e`;
+    a method without `return` that assigns exactly one field returns the new value of that field.  Fields hold VALUES:
+    that `self.X = v` keeps a reference to the caller's object `v` (later changes of `v` show through) is outside the
+    rendering.  Parameters of the rendered function: the fields the method reads (in the order of `fields`), then the
+    method's parameters.  Any other use of `self` is refused.
+    decorator=True: the method has the shape
+            def __call__(self, func):
+                @wraps(func)
+                def wrapper(individual, *args, **kargs):
+                    return func(E, *args, **kargs)
+                wrapper.a = self.a            # any number of these (publishing bound methods; no effect on values)
+                return wrapper
+    and is rendered as the value E handed to `func` (parameters: the fields read, then `individual`).
+    -> (lean text, result type); raises Refuse"""
+    node = module.globals.get(cls)
+    if not node or node[0] != "class":
+        raise Refuse("no class %s" % cls)
+    fn = None
+    for x in node[1].body:
+        if isinstance(x, ast.FunctionDef) and x.name == meth:
+            fn = x
+    if fn is None:
+        raise Refuse("no method %s.%s" % (cls, meth))
+    a = fn.args
+    if fn.decorator_list or a.vararg or a.kwarg or a.kwonlyargs or a.posonlyargs or not a.args:
+        raise Refuse("method signature")
+    for prm in a.args[len(a.args) - len(a.defaults):]:
+        if sig.get(prm.arg, ("",))[0] != "K":
+            raise Refuse("default value of %s (only parameters specialised to a constant may have one)" % prm.arg)
+    selfname = a.args[0].arg
+    params = list(a.args[1:])
+    body = list(fn.body)
+    if body and isinstance(body[0], ast.Expr) and isinstance(body[0].value, ast.Constant) and isinstance(body[0].value.value, str):
+        body = body[1:]
+    if decorator:
+        if len(params) != 1 or len(body) < 2 or not isinstance(body[0], ast.FunctionDef) or not isinstance(body[-1], ast.Return) \
+                or not isinstance(body[-1].value, ast.Name) or body[-1].value.id != body[0].name:
+            raise Refuse("not a decorator method")
+        fparam, inner = params[0].arg, body[0]
+        for st in body[1:-1]:
+            if not (isinstance(st, ast.Assign) and len(st.targets) == 1 and isinstance(st.targets[0], ast.Attribute)
+                    and isinstance(st.targets[0].value, ast.Name) and st.targets[0].value.id == inner.name
+                    and isinstance(st.value, ast.Attribute) and isinstance(st.value.value, ast.Name)
+                    and st.value.value.id == selfname):
+                raise Refuse("decorator method: statement %s" % type(st).__name__)
+        d = inner.decorator_list
+        if len(d) != 1 or not (isinstance(d[0], ast.Call) and isinstance(d[0].func, ast.Name) and len(d[0].args) == 1
+                               and not d[0].keywords and isinstance(d[0].args[0], ast.Name) and d[0].args[0].id == fparam
+                               and module.globals.get(d[0].func.id) == ("other", "functools", "wraps")):
+            raise Refuse("inner function is not decorated by functools.wraps(func) only")
+        ia = inner.args
+        if len(ia.args) != 1 or ia.vararg is None or ia.kwarg is None or ia.kwonlyargs or ia.posonlyargs or ia.defaults:
+            raise Refuse("inner function is not (individual, *args, **kargs)")
+        va, kw = ia.vararg.arg, ia.kwarg.arg
+        ib = list(inner.body)
+        last = ib[-1] if ib else None
+        if not (isinstance(last, ast.Return) and isinstance(last.value, ast.Call) and isinstance(last.value.func, ast.Name)
+                and last.value.func.id == fparam and len(last.value.args) == 2 and isinstance(last.value.args[1], ast.Starred)
+                and isinstance(last.value.args[1].value, ast.Name) and last.value.args[1].value.id == va
+                and len(last.value.keywords) == 1 and last.value.keywords[0].arg is None
+                and isinstance(last.value.keywords[0].value, ast.Name) and last.value.keywords[0].value.id == kw):
+            raise Refuse("inner function does not end in `return func(E, *args, **kargs)`")
+        body = ib[:-1] + [ast.Return(value=last.value.args[0], lineno=last.lineno, col_offset=last.col_offset)]
+        for st in body:
+            for nd in ast.walk(st):
+                if isinstance(nd, ast.Name) and nd.id in (fparam, va, kw):
+                    raise Refuse("the body uses %s" % nd.id)
+        params = [ia.args[0]]
+    # `if p:` on a parameter specialised to a constant (top level): only the branch taken exists in the rendering
+    def const_test(t):
+        """the value of `p` / `not p` for a parameter p specialised to a constant, else None"""
+        if isinstance(t, ast.Name) and sig.get(t.id, ("",))[0] == "K" and t.id in [x.arg for x in params]:
+            return bool(sig[t.id][1])
+        if isinstance(t, ast.UnaryOp) and isinstance(t.op, ast.Not):
+            v = const_test(t.operand)
+            return None if v is None else not v
+        return None
+    pruned = []
+    for st in body:
+        if isinstance(st, ast.If) and const_test(st.test) is not None:
+            pruned.extend(st.body if const_test(st.test) else st.orelse)
+        else:
+            pruned.append(st)
+        if pruned and isinstance(pruned[-1], ast.Return):
+            break                   # what follows a top-level return is never executed
+    body = pruned
+    # self.X -> self_X
+    read, written = [], []
+    helpers, helper_stack = {}, [meth]
+    class_methods = {x.name: x for x in node[1].body if isinstance(x, ast.FunctionDef)}
+
+    class T(ast.NodeTransformer):
+        def visit_Call(self, nd):
+            f = nd.func
+            if isinstance(f, ast.Attribute) and isinstance(f.value, ast.Name) and f.value.id == selfname \
+                    and siblings and f.attr in siblings:
+                sib = siblings[f.attr]
+                for fld in sib["fields"]:
+                    if fld not in read and fld not in written:
+                        read.append(fld)
+                    if fld in written:
+                        raise Refuse("call of %s.%s after a field it reads was assigned" % (selfname, f.attr))
+                return ast.copy_location(ast.Call(func=ast.Name(id="method__" + f.attr, ctx=ast.Load()),
+                                                  args=[self.visit(x) for x in nd.args],
+                                                  keywords=[ast.keyword(arg=k.arg, value=self.visit(k.value)) for k in nd.keywords]), nd)
+            if isinstance(f, ast.Attribute) and isinstance(f.value, ast.Name) and f.value.id == selfname \
+                    and f.attr in class_methods and not nd.keywords and f.attr not in helper_stack:
+                # another method of the object that only READS fields: inlined at the call like a module function
+                h = class_methods[f.attr]
+                ha = h.args
+                if h.decorator_list or ha.vararg or ha.kwarg or ha.kwonlyargs or ha.posonlyargs or ha.defaults \
+                        or not ha.args or ha.args[0].arg != selfname:
+                    raise Refuse("call of the method %s.%s" % (selfname, f.attr))
+                if f.attr not in helpers:
+                    helper_stack.append(f.attr)
+                    try:
+                        # (a copy: NodeTransformer rewrites in place; field assignments inside are refused — Store context)
+                        hb = [self.visit(copy.deepcopy(x)) for x in h.body]
+                    finally:
+                        helper_stack.pop()
+                    helpers[f.attr] = ([x.arg for x in ha.args[1:]], hb)
+                return ast.copy_location(ast.Call(func=ast.Name(id="helper__" + f.attr, ctx=ast.Load()),
+                                                  args=[self.visit(x) for x in nd.args], keywords=[]), nd)
+            return self.generic_visit(nd)
+
+        def visit_Attribute(self, nd):
+            if isinstance(nd.value, ast.Name) and nd.value.id == selfname:
+                if nd.attr not in fields or not isinstance(nd.ctx, ast.Load):
+                    raise Refuse("use of %s.%s" % (selfname, nd.attr))
+                if nd.attr not in read and nd.attr not in written:
+                    read.append(nd.attr)
+                return ast.copy_location(ast.Name(id="self_" + nd.attr, ctx=ast.Load()), nd)
+            return self.generic_visit(nd)
+
+        def visit_Name(self, nd):
+            if nd.id == selfname:
+                raise Refuse("use of %s other than %s.<field>" % (selfname, selfname))
+            if nd.id.startswith("self_") or nd.id.startswith("helper__") or nd.id.startswith("method__"):
+                raise Refuse("name %s" % nd.id)
+            return nd
+    out = []
+    body = [copy.deepcopy(st) for st in body]
+    for st in body:
+        if isinstance(st, ast.Assign) and len(st.targets) == 1 and isinstance(st.targets[0], ast.Attribute) \
+                and isinstance(st.targets[0].value, ast.Name) and st.targets[0].value.id == selfname:
+            f = st.targets[0].attr
+            if f not in fields:
+                raise Refuse("assignment of the undeclared field %s" % f)
+            val = T().visit(st.value)
+            if f not in written:
+                written.append(f)
+            out.append(ast.copy_location(ast.Assign(targets=[ast.Name(id="self_" + f, ctx=ast.Store())], value=val), st))
+        else:
+            out.append(T().visit(st))
+    has_return = any(isinstance(nd, ast.Return) for st in out for nd in ast.walk(st))
+    if not has_return:
+        if len(written) != 1:
+            raise Refuse("method without return that assigns %d fields" % len(written))
+        out.append(ast.Return(value=ast.Name(id="self_" + written[0], ctx=ast.Load(), lineno=fn.lineno, col_offset=0),
+                              lineno=fn.lineno, col_offset=0))
+    elif written:
+        raise Refuse("method that assigns fields and returns a value")
+    fargs = [ast.arg(arg="self_" + f) for f in fields if f in read] + params
+    full_sig = dict(sig)
+    for f in fields:
+        full_sig["self_" + f] = fields[f]
+    synth = ast.FunctionDef(name=meth, args=ast.arguments(posonlyargs=[], args=fargs, vararg=None, kwonlyargs=[],
+                                                          kw_defaults=[], kwarg=None, defaults=[]),
+                            body=out, decorator_list=[], returns=None, lineno=fn.lineno, col_offset=fn.col_offset)
+    ast.fix_missing_locations(synth)
+    ft = FunctionTranslator(module, synth, full_sig)
+    ft.siblings = {"method__" + k: dict(v, name=k) for k, v in (siblings or {}).items()}
+    ft.helper_macros = {"helper__" + k: (ps, hb, k) for k, (ps, hb) in helpers.items()}
+    text, rty = ft.translate(lean_name)
+    METHOD_INFO[lean_name] = {"lean": lean_name, "fields": [f for f in fields if f in read],
+                              "params": [full_sig[x.arg] for x in params if full_sig[x.arg][0] != "K"],
+                              "kw": {x.arg: full_sig[x.arg][1] for x in params if full_sig[x.arg][0] == "K"}, "ret": rty}
+    return text, rty
 
 
 def lean_result_type(t):
